@@ -21,6 +21,7 @@
 package engine
 
 import (
+	"fmt"
 	"go/ast"
 	"go/token"
 	"path/filepath"
@@ -251,10 +252,38 @@ func (r ImportReplacer) Replace(d data.Data, cl Changelog, f *ast.File) (string,
 		pkgName = filepath.Base(r.Path)
 	}
 
-	if !astutil.AddNamedImport(r.Fset, f, name, r.Path) {
+	added, err := addNamedImport(r.Fset, f, name, r.Path)
+	if err != nil {
+		return "", err
+	}
+	if !added {
 		return "", nil
 	}
 	return pkgName, nil
+}
+
+// addNamedImport and deleteNamedImport call their namesakes in astutil, which
+// adjust the line table of the file by the line numbers it reports. Those are
+// not the physical line numbers if the file contains //line directives, and
+// astutil then panics on some import blocks. Report that as a failure to
+// update this file instead of crashing.
+func addNamedImport(fset *token.FileSet, f *ast.File, name, path string) (added bool, err error) {
+	defer func() {
+		if r := recover(); r != nil {
+			err = fmt.Errorf("cannot add import %q: %v", path, r)
+		}
+	}()
+	return astutil.AddNamedImport(fset, f, name, path), nil
+}
+
+func deleteNamedImport(fset *token.FileSet, f *ast.File, name, path string) (err error) {
+	defer func() {
+		if r := recover(); r != nil {
+			err = fmt.Errorf("cannot remove import %q: %v", path, r)
+		}
+	}()
+	astutil.DeleteNamedImport(fset, f, name, path)
+	return nil
 }
 
 // ImportsReplacer replaces a block of imports.
@@ -327,7 +356,9 @@ func (r ImportsReplacer) Cleanup(d data.Data, f *ast.File, newNames []string) er
 		// If this import was replaced by an added import, kill it.
 		_, replaced := taken[pkgName]
 		if replaced || !usesNameAsTopLevel(f, pkgName) {
-			astutil.DeleteNamedImport(r.Fset, f, importName, imp)
+			if err := deleteNamedImport(r.Fset, f, importName, imp); err != nil {
+				return err
+			}
 		}
 	}
 
